@@ -536,7 +536,11 @@ func init() {
 				if tier == "thorough" {
 					bs = append(bs, explore.Budget{K: 3})
 				}
-				jobs = append(jobs, ExploreJob("C04", ExploreSpec{Sc: c04RaceScenario(k), Variants: []int{1, 2, 3}, Budgets: bs, Cache: true}, 40))
+				spec := ExploreSpec{Sc: c04RaceScenario(k), Variants: []int{1, 2, 3}, Budgets: bs, Cache: true}
+				if k == "remove-fg" {
+					spec.CrossChk = &explore.Budget{K: 2}
+				}
+				jobs = append(jobs, ExploreJob("C04", spec, 40))
 			}
 			return jobs
 		},
